@@ -43,13 +43,13 @@ Section Limits.
   Proof.
     intros [(W1 & W2 & W3) Hl].
     eapply post_weaken; [apply add_point_spec| |].
-    - intros s' ((V & T & _) & _ & X & M & _ & K & (r & L & Rk & Rv & _)).
+    - intros s' ((V & T & _) & X & M & _ & K & (r & L & Rk & Rv & _)).
       destruct (rt_write_good (va s) (knobs s) Hl) as [G1 G2].
       split.
       + split; [|rewrite K; auto]. split; [rewrite K, G2; auto|]. split; [congruence|].
         intros x Hx. rewrite X in Hx. rewrite M. auto.
       + exists r. split; auto. unfold row_ok. rewrite Rk, Rv. auto.
-    - intros e s' ((V & T & _) & L & _ & X & M & K).
+    - intros e s' ((V & T & _) & L & X & M & K).
       destruct (rt_write_good (va s) (knobs s) Hl) as [G1 G2].
       split; auto. split; [|rewrite K; auto]. split; [rewrite K, G2; auto|]. split; [congruence|].
       intros x Hx. rewrite X in Hx. rewrite M. auto.
@@ -72,7 +72,7 @@ Section Limits.
   (* ---- one Jacobian step --------------------------------------------------------------- *)
   Lemma stepped_good s s' : good_k s -> inner E s s' -> stepped E cf s s' -> good_k s'.
   Proof.
-    intros [Hw Hl] (V & T & _ & _ & Hk) (x' & y & kp & S1 & _ & _ & S4 & S5 & S6).
+    intros [Hw Hl] (V & T & _ & Hk) (x' & y & kp & S1 & _ & _ & S4 & S5 & S6).
     destruct (S6 Hwfc Hw) as [X1 X2]. destruct Hw as (W1 & W2 & W3).
     pose proof (kn_inact_length _ _ _ _ Hk) as Lk. pose proof (kn_inact_length _ _ _ _ S4) as Lp.
     split.
@@ -86,7 +86,7 @@ Section Limits.
 
   Lemma innerx_wfs s s' : wfs E cf s -> innerx E s s' -> wfs E cf s'.
   Proof.
-    intros (W1 & W2 & W3) ((V & _ & _ & _ & Hk) & X & M).
+    intros (W1 & W2 & W3) ((V & _ & _ & Hk) & X & M).
     pose proof (kn_inact_length _ _ _ _ Hk) as Lk.
     split; [congruence|]. split; [congruence|]. intros x Hx. rewrite X in Hx. rewrite M. auto.
   Qed.
@@ -175,7 +175,7 @@ Section Limits.
 
   Lemma able_good st t v vn s : good_k s -> good_k (able E cf st t v vn s).
   Proof.
-    intros [(W1 & W2 & W3) Hl]. destruct (able_data E cf st t v vn s) as (K & _ & _ & X & M & _).
+    intros [(W1 & W2 & W3) Hl]. destruct (able_data E cf st t v vn s) as (K & _ & X & M & _).
     split; [|rewrite K; auto]. split; [congruence|]. split.
     - rewrite able_va, !set_flags_length. auto.
     - intros x Hx. rewrite X in Hx. rewrite M. auto.
@@ -186,7 +186,7 @@ Section Limits.
   Proof. intros H. unfold post_flags. repeat apply able_good. exact H. Qed.
   Lemma able_wfs st t v vn s : wfs E cf s -> wfs E cf (able E cf st t v vn s).
   Proof.
-    intros (W1 & W2 & W3). destruct (able_data E cf st t v vn s) as (K & _ & _ & X & M & _).
+    intros (W1 & W2 & W3). destruct (able_data E cf st t v vn s) as (K & _ & X & M & _).
     split; [congruence|]. split.
     - rewrite able_va, !set_flags_length. auto.
     - intros x Hx. rewrite X in Hx. rewrite M. auto.
